@@ -207,6 +207,8 @@ async def _client_task(idx, spec, sess, rng):
                       spec['c_writes'])
     for piece in pieces:
         await _yield(rng)
+        if not piece and chan.is_closing():
+            continue    # server may close once it has the whole input
         chan.write(piece)
     await _yield(rng)
     if spec['c_eof']:
@@ -232,6 +234,8 @@ async def _stream_client_task(idx, spec, writer, reader, stderr, rng, got):
     t2 = asyncio.ensure_future(rd(stderr, 'err'))
     for piece in pieces:
         await _yield(rng)
+        if not piece and writer.is_closing():
+            continue    # server may close once it has the whole input
         writer.write(piece)
         if rng.random() < 0.5:
             await writer.drain()
@@ -241,7 +245,7 @@ async def _stream_client_task(idx, spec, writer, reader, stderr, rng, got):
     await writer.channel.wait_closed()
 
 
-def run_case(case):
+def run_case(case, hooks=None):
     mon = {'streams_compared': 0, 'bytes_compared': 0, 'eof_checked': 0,
            'text_streams': 0, 'pauses': 0, 'multi_channel_cases': 0,
            'order_checked': 0, 'exit_checked': 0, 'chunks': 0,
@@ -275,6 +279,8 @@ def run_case(case):
                                 pass
 
             env.wire.on_chunk = on_chunk
+            if hooks:
+                hooks.setup(env)
 
             conn = await env.connect()
             csess = []
@@ -445,6 +451,9 @@ def run_case(case):
                     if w.channel.get_exit_status() != spec['s_exit']:
                         viol.append({'mechanism': 'exit_status',
                                      'detail': f'stream c{i}'})
+
+            if hooks:
+                hooks.finish(env, viol, mon)
 
             for ev in env.san.drain():
                 viol.append({'mechanism': 'sanitizer_' + ev['kind'],
